@@ -2052,12 +2052,25 @@ func (g *wgen) loopStmt(depth int) *wstmt {
 func (g *wgen) helper(i int) *wfunc {
 	f := &wfunc{name: fmt.Sprintf("helper%d", i)}
 	np := g.c.rng.Intn(4)
+	if g.c.chance(0.25) {
+		np = 4 + g.c.rng.Intn(3) // long signatures (function-type caches keyed by the parameter list)
+	}
+	var like *wfunc
+	if len(g.funcs) > 0 && g.c.chance(0.4) {
+		// the same parameter types as the previous helper (usually with another result type)
+		like = g.funcs[len(g.funcs)-1]
+		np = len(like.params)
+		g.f("helper-same-params")
+	}
 	g.scopes = nil
 	g.push()
 	for j := 0; j < np; j++ {
 		t := g.valueTy()
 		name := fmt.Sprintf("pp%d_%d", i, j)
 		ptr := g.c.chance(0.25)
+		if like != nil {
+			t, ptr = like.params[j].ty, like.ptrs[j]
+		}
 		f.params = append(f.params, wfield{name: name, ty: t})
 		f.ptrs = append(f.ptrs, ptr)
 		g.declare(wscopeVar{name: name, ty: t, ptr: ptr, mutable: ptr})
@@ -2080,11 +2093,19 @@ func (g *wgen) helper(i int) *wfunc {
 			ctr := g.fresh("rl")
 			ce := &wexpr{k: "var", ty: tU32, name: ctr}
 			lim := &wexpr{k: "lit", ty: tU32, bits: uint32(g.c.rng.Intn(3)), konst: true, small: true}
-			f.body = append(f.body,
-				&wstmt{k: "var", name: ctr, ty: tU32, e: &wexpr{k: "lit", ty: tU32, bits: 0, konst: true, small: true}},
-				&wstmt{k: "loop", body: []*wstmt{
+			tail := []*wstmt{
+				{k: "var", name: ctr, ty: tU32, e: &wexpr{k: "lit", ty: tU32, bits: 0, konst: true, small: true}},
+				{k: "loop", body: []*wstmt{
 					{k: "if", e: &wexpr{k: "bin", ty: tBool, op: ">=", args: []*wexpr{ce, lim}}, body: []*wstmt{ret}},
-					{k: "incr", lhs: ce}}})
+					{k: "incr", lhs: ce}}}}
+			if g.c.chance(0.4) {
+				// … inside a clause of a trailing switch whose other clause returns directly
+				sel := &wexpr{k: "bin", ty: tU32, op: "&", args: []*wexpr{g.load(tU32), {k: "lit", ty: tU32, bits: 1, konst: true, small: true}}}
+				ret2 := &wstmt{k: "return", e: g.expr(f.ret, 2)}
+				tail = []*wstmt{{k: "switch", e: sel, cases: []wcase{{sels: []uint32{1}, body: tail}, {deflt: true, body: []*wstmt{ret2}}}}}
+				g.f("function-ends-in-switch-with-loop-left-by-return")
+			}
+			f.body = append(f.body, tail...)
 			g.f("function-ends-in-loop-left-by-return")
 		} else {
 			f.body = append(f.body, ret)
